@@ -207,6 +207,40 @@ fn c14_known_eval_expr_not() {
     assert!(!a);
 }
 
+//@ props=C14 kind=bounded bound="IS [NOT] NULL over the operand trees NULL, TRUE, NULL + TRUE (literal leaves)" timeout=900
+/// IS NULL / IS NOT NULL: TRUE exactly when the operand evaluates to NULL — also when the operand is a
+/// computed expression whose NULL is represented as `None` by this evaluator (NULL + TRUE); both as a
+/// select-list value (eval_value) and as a filter (eval_expr); never UNKNOWN
+#[kani::proof]
+#[kani::stub(eyre::capture_handler, vs::capture_handler)]
+#[kani::stub(eyre::private::new_adhoc, vs::new_adhoc)]
+#[kani::stub(eyre::private::format_err, vs::format_err)]
+#[kani::stub(alloc::fmt::format, vs::format)]
+#[kani::unwind(8)]
+fn c14_is_null_literal_trees() {
+    let cells: [Value<'static>; 1] = [Value::Null];
+    let row = ExecutorRow::new(&cells);
+    let null = Expr::Literal(Literal::Null);
+    let one = Expr::Literal(Literal::Boolean(true));
+    let null_plus_one = Expr::BinaryOp { left: &null, op: B::Plus, right: &one };
+    let p = pred();
+    // all six (operand, negated) combinations, each with a CONCRETE expression tree (keeps CBMC's
+    // symbolic execution inside the arms the tree uses)
+    let mut which = 0u8;
+    while which < 6 {
+        let negated = which >= 3;
+        let (operand, operand_is_null) = match which % 3 { 0 => (&null, true), 1 => (&one, false), _ => (&null_plus_one, true) };
+        let e = Expr::IsNull { expr: operand, negated };
+        let want = operand_is_null != negated;
+        let v = p.eval_value(&e, &row);
+        let f = p.eval_expr(&e, &row);
+        assert!(matches!(v, Some(Value::Int(n)) if (n != 0) == want));
+        assert!(f == want);
+        which += 1;
+    }
+    core::mem::forget(p);
+}
+
 // ------------------------------------------------------------------------------------------------
 // C20: integer arithmetic
 // ------------------------------------------------------------------------------------------------
